@@ -12,3 +12,15 @@ chk('C08', 'exploration',
     'runtime monitoring: per-operation post-conditions + icontract class '
     'invariant + deep snapshots over random operation chains',
     'DESIGN.md section 4 (C08)')
+chk('C09', 'exploration',
+    'Every unit-step slice (start, stop in {None, -n-2..n+2}) of every 1-d '
+    'dataset of length 1..6 (1..9 thorough) with edges or centres is executed '
+    'on the real class and compared with index arithmetic (complete '
+    'enumeration of that space), plus random products of such slices on 2-4-d '
+    'datasets, each followed by squeeze; well-formedness by icontract '
+    'invariant, originals by deep digest.',
+    'numpy basic slicing trusted for the value/error arrays; empty selections '
+    'only checked for emptiness',
+    'runtime monitoring: result vs index-arithmetic oracle on exhaustively '
+    'enumerated 1-d slices and random N-d slices, icontract invariant',
+    'DESIGN.md section 4 (C09)')
